@@ -431,3 +431,31 @@ Fixpoint clone_chain (h : heap) (vs : list value) (picks : list nat) : option (h
           end
       end
   end.
+
+(* ------------------------------------------------------------------------------------- *)
+(* Decidable well-formedness (evaluated on every described heap by the correspondence)     *)
+(* ------------------------------------------------------------------------------------- *)
+Definition nonrefb (v : value) : bool := match v with Ref _ => false | _ => true end.
+
+Definition closedb (h : heap) : bool :=
+  forallb (fun o => forallb (fun c => match c with Ref x => Nat.ltb x (length h) | _ => true end) (children o)) h.
+
+(* the class of an object is a builtin type or a created class *)
+Definition cls_okb (h : heap) (c : value) : bool :=
+  match c with
+  | Ref l => match nth_error h l with Some o => is_class (o_kind o) | None => false end
+  | _ => true
+  end.
+
+Definition obj_deep_okb (h : heap) (o : obj) : bool :=
+  match o_kind o with
+  | KClass => true
+  | KFit => match o_attrs o with [] => true | _ => false end && forallb nonrefb (o_items o) && cls_okb h (o_cls o)
+  | KCFit => forallb (fun p => Nat.eqb (fst p) cv_name) (o_attrs o) && forallb nonrefb (o_items o) && cls_okb h (o_cls o)
+  | _ => cls_okb h (o_cls o)
+  end.
+
+Definition deep_okb (h : heap) : bool := closedb h && forallb (obj_deep_okb h) h.
+
+Definition insideb (h : heap) (v : value) : bool :=
+  match v with Ref y => Nat.ltb y (length h) | _ => true end.
